@@ -265,6 +265,7 @@ RULES = [
 LEVEL_TEXT = ("Totality and layout rules on MIR: every panic-capable construct reachable from the two dissectors is proved unable to fire by the "
               "interval analysis alone (no reviewed exceptions), for every input length and content; the constant offsets/sizes of all reads equal the "
               "IPv4/IPv6/Ethernet header layouts and lie inside the dominating length tests; address bytes have only the reader and zero "
-              "initialisers as sources.")
+              "initialisers as sources."
+              " Address::read_from_fixed returns the bytes read with the length asked for, nothing derived.")
 LEVEL_NOTE = "Decides C19.R1-R3. The comparison with an independent reference dissector over values is not performed (value clause); the VLAN-0 fold is charged to C13."
 TECHNIQUE = "interval abstract interpretation over MIR (totality), constant layout extraction, who-may-write"
